@@ -15,13 +15,26 @@ package virtualtable
 //@   pure
 //@   ensures forallstr(a, result0 != aliasToIndexNames[orgid][a])
 //@ end
+// (C19) the alias file of an index is removed / written only under a name that
+// passed the index-name validator; frames PROVED (nothing a caller sees is
+// written)
 //@ func removeAliasFile
-//@   assumed
+//@   props C19 C13 C20
 //@   pure
+//@   site call os.Remove #1:
+//@     assert [alias-file-removed-only-for-a-validated-index-name] indexName != nil && uf("safeName", bool, *indexName)
 //@ end
 //@ func writeAliasFile
-//@   assumed
+//@   props C19 C13 C20
 //@   pure
+//@   site call os.WriteFile #1:
+//@     assert [alias-file-written-only-for-a-validated-index-name] indexName != nil && uf("safeName", bool, *indexName)
+//@ end
+//@ func AddMapping
+//@   props C19
+//@   assumecalleerequires
+//@   site call os.OpenFile #1:
+//@     assert [mapping-file-written-only-for-a-validated-index-name] tname != nil && uf("safeName", bool, *tname)
 //@ end
 
 //@ func RemoveAliases
